@@ -980,6 +980,51 @@ GENERATORS = {
 }
 
 
+def _compositions(items):
+    """All ways to wrap consecutive runs of `items` in parentheses (one nesting level)."""
+    n = len(items)
+    if n == 0:
+        return [()]
+    out = []
+    for k in range(1, n + 1):
+        head = items[:k]
+        for rest in _compositions(items[k:]):
+            if k == 1:
+                out.append((head[0],) + rest)
+                out.append((Grp(tuple(head)),) + rest)
+            else:
+                out.append((Grp(tuple(head)),) + rest)
+    return out
+
+
+def exhaustive(family):
+    """Deterministic, complete sub-families (no seed): every permutation x every one-level grouping of
+    three axes with lengths (2, 2, 3) and (2, 1, 2) for `id`; every non-empty bracket subset x every output
+    permutation for each reduction."""
+    cases = []
+    for sizes in [(2, 2, 3), (2, 1, 2)]:
+        axes_ = [Ax(n, s) for n, s in zip("abc", sizes)]
+        if family == "id":
+            for perm in itertools.permutations(axes_):
+                for e_in in _compositions(list(axes_)):
+                    for e_out in _compositions(list(perm)):
+                        kw = make_kwargs(random.Random(0), [e_in], [e_out], extra_prob=0.0)
+                        cases.append(_case("id", "id", show_op([e_in], [e_out]), [e_in], [e_out], kw, tags={"exhaustive"} | tags_of([e_in, e_out])))
+        elif family == "reduce":
+            for op in REDUCE:
+                for k in range(1, 4):
+                    for marked in itertools.combinations(axes_, k):
+                        if op in ("var", "std") and k > 1:
+                            continue
+                        e_in = tuple(Brk((a,)) if a in marked else a for a in axes_)
+                        rest = [a for a in axes_ if a not in marked]
+                        for perm in itertools.permutations(rest):
+                            e_out = tuple(perm)
+                            kw = make_kwargs(random.Random(0), [e_in], [e_out], extra_prob=0.0)
+                            cases.append(_case(op, "reduce", show_op([e_in], [e_out]), [e_in], [e_out], kw, tags={"exhaustive"} | tags_of([e_in, e_out])))
+    return cases
+
+
 def generate(family, n, seed, tier="quick"):
     """n distinct cases of one family."""
     g = Gen(f"{family}:{seed}", tier)
